@@ -174,7 +174,10 @@ def main(argv=None):
             for c in dsum["crashed"]:
                 print(f"CHECKER-ERROR {c['function']}: {c['reason'][-1500:]}")
             return 3
-        if dsum["vacuous"]:
+        if dsum["vacuous"] and not dsum["failed"]:
+            # contradictory hypotheses with nothing failing: the contracts themselves are at fault. (With failing obligations a
+            # contradictory path is a consequence of the failure - e.g. an invariant that does not hold at loop entry - and the
+            # failures are reported instead.)
             print(f"CHECKER-ERROR vacuous hypotheses in {dsum['vacuous'][:3]}")
             return 3
         for f in dsum["failed"]:
